@@ -28,6 +28,8 @@ import threading
 import time
 from hmac import HMAC
 
+from cryptography.exceptions import InvalidTag
+
 from paramiko import util
 from paramiko.common import (
     linefeed_byte,
@@ -519,7 +521,13 @@ class Packetizer:
                 packet_size - self.__block_size_in + 4 + self.__mac_size_in
             )
             packet = header[4:] + self.read_all(remaining, check_rekey=False)
-            header = self.__block_engine_in.decrypt(self.__iv_in, packet, aad)
+            try:
+                header = self.__block_engine_in.decrypt(
+                    self.__iv_in, packet, aad
+                )
+            except InvalidTag:
+                # The GCM tag is this cipher's MAC.
+                raise SSHException("Mismatched MAC")
 
             self.__iv_in = self._inc_iv_counter(self.__iv_in)
 
